@@ -313,7 +313,7 @@ func (c *Case) line() string {
 	if c.huge() { // not judged by the model (oracle only)
 		return "HUGE " + b
 	}
-	if c.Op == "SX" || c.Op == "CW" { // oracle only
+	if c.Op == "SX" { // oracle only
 		return "SX " + b
 	}
 	l := b[:i] + " " + c.hashes() + b[i:]
@@ -444,6 +444,12 @@ func errEnum(err error) string {
 		return "OK"
 	case errors.Is(err, errInjected):
 		return "INJECTED"
+	case errors.Is(err, errWrite):
+		return "WRITE"
+	case errors.Is(err, io.ErrShortWrite):
+		return "SHORT_WRITE"
+	case errors.Is(err, file.ErrPathTraversalDisallowed):
+		return "TRAVERSAL"
 	case errors.Is(err, content.ErrInvalidDescriptorSize):
 		return "INVALID_SIZE"
 	case errors.Is(err, content.ErrTrailingData):
@@ -632,7 +638,7 @@ func runCW(id string, c *Case) string {
 		}
 	}
 	run.Count("cw:" + c.WMode + ":" + map[bool]string{true: "fault", false: "nofault"}[w.fault])
-	return "-"
+	return fmt.Sprintf("%s %d W%s", errEnum(err), r.delivered, dstr(w.buf.Bytes()))
 }
 
 func runVR(id string, c *Case) string {
